@@ -1,0 +1,33 @@
+//go:build verif
+
+package interp
+
+import "io/fs"
+
+// Verification hooks for source import resolution (property C16). Compiled only
+// with -tags verif; thin wrappers over unexported functions of src.go, no behaviour change.
+
+// VerifEffectivePkg exposes effectivePkg.
+func VerifEffectivePkg(root, path string) string { return effectivePkg(root, path) }
+
+// VerifPreviousRoot exposes previousRoot on an arbitrary filesystem.
+func VerifPreviousRoot(filesystem fs.FS, rootPath, root string) (string, error) {
+	return previousRoot(filesystem, rootPath, root)
+}
+
+// VerifPkgDir exposes (*Interpreter).pkgDir; the filesystem is the interpreter's
+// Options.SourcecodeFilesystem.
+func (interp *Interpreter) VerifPkgDir(goPath, root, importPath string) (dir, rPath string, err error) {
+	return interp.pkgDir(goPath, root, importPath)
+}
+
+// VerifRootFromSourceLocation exposes (*Interpreter).rootFromSourceLocation.
+func (interp *Interpreter) VerifRootFromSourceLocation() (string, error) {
+	return interp.rootFromSourceLocation()
+}
+
+// VerifIsPathRelative exposes isPathRelative.
+func VerifIsPathRelative(s string) bool { return isPathRelative(s) }
+
+// VerifRealFS returns the file system used when Options.SourcecodeFilesystem is not set.
+func VerifRealFS() fs.FS { return &realFS{} }
